@@ -72,7 +72,7 @@ func itemShapesBase(c *Counter, mk func(n string, it ap.Item) Shaped) []Shaped {
 		// that tells its members apart by their ids must both keep
 		mk("list2:iri-then-query", func() ap.ItemCollection {
 			base := c.ID("i")
-			return ap.ItemCollection{base, base + "?page=2", &ap.Object{ID: base + "?page=2&sort=asc", Type: ap.NoteType}, base + "?page=3"}
+			return ap.ItemCollection{base, base + "?page=2", &ap.Object{ID: base + "?page=2&sort=asc", Type: ap.NoteType}, base + "?page=3&sort=desc&q=a%20b"}
 		}()),
 		mk("list3:link", ap.ItemCollection{c.ID("i"), &ap.Link{ID: c.ID("l"), Type: ap.LinkType, Href: c.ID("h")}, &ap.Actor{ID: c.ID("p"), Type: ap.GroupType}}),
 		mk("list-one-of-each-type", oneOfEach(c)),
@@ -100,6 +100,8 @@ func oneOfEach(c *Counter) ap.ItemCollection {
 func listShapes(c *Counter) []Shaped {
 	mk := func(n string, it ap.ItemCollection) Shaped { return Shaped{n, reflect.ValueOf(it)} }
 	return []Shaped{
+		// set, but empty ("cc": [] / make(ItemCollection, 0)): the same as unset under the normal form, and nothing a codec may choke on
+		mk("list0", ap.ItemCollection{}),
 		mk("list-one-of-each-type", oneOfEach(c)),
 		mk("list1:iri", ap.ItemCollection{c.ID("i")}),
 		mk("list1:obj", ap.ItemCollection{&ap.Object{ID: c.ID("o"), Type: ap.NoteType}}),
@@ -109,7 +111,7 @@ func listShapes(c *Counter) []Shaped {
 		mk("list3", ap.ItemCollection{c.ID("i"), &ap.Object{ID: c.ID("o"), Type: ap.NoteType}, c.ID("j")}),
 		mk("list4:iri-then-query", func() ap.ItemCollection {
 			base := c.ID("i")
-			return ap.ItemCollection{base, base + "?page=2", &ap.Object{ID: base + "?page=2&sort=asc", Type: ap.NoteType}, base + "?page=3"}
+			return ap.ItemCollection{base, base + "?page=2", &ap.Object{ID: base + "?page=2&sort=asc", Type: ap.NoteType}, base + "?page=3&sort=desc&q=a%20b"}
 		}()),
 		mk("list3:link", ap.ItemCollection{&ap.Link{Type: ap.MentionType, Href: c.ID("h"), Name: ap.DefaultNaturalLanguageValue("txt-@a")}, &ap.Object{Name: ap.DefaultNaturalLanguageValue("txt-#tag")}, c.ID("j")}),
 	}
@@ -316,7 +318,7 @@ func Everything(st reflect.Type, gob bool) ap.Item {
 		}
 		pick := shapes[0]
 		if f.Kind == KItems {
-			pick = shapes[5]
+			pick = shapes[6]
 		}
 		p.Elem().Field(f.Index).Set(pick.V)
 	}
@@ -334,6 +336,9 @@ func AnonymousCells(gob bool) (cells []Cell) {
 			continue
 		}
 		shapes := ShapesFor(f, c, gob)
+		if f.Kind == KItems {
+			shapes = shapes[1:] // not the empty list: an object whose only property is an empty list says nothing
+		}
 		for si, sh := range shapes {
 			if si >= 3 {
 				break
